@@ -1261,6 +1261,51 @@ fn tokenize(text: &str) -> Vec<String> {
     ev
 }
 
+/// package shapes (`pkg=` field of the ods description):
+///   0  mimetype, manifest, content.xml (per-entry encryption as ODF 1.2 writes it: content.xml is cipher text)
+///   1  encrypted as a whole package (ODF 1.3 / LibreOffice 24.2+): mimetype, manifest with one encrypted
+///      file-entry, `encrypted-package`; NO content.xml
+///   2  `encrypted-package` and a content.xml next to it
+///   3  the usual further parts (styles.xml, meta.xml, settings.xml, Thumbnails/thumbnail.png) around content.xml
+///   4  as 3 but without content.xml
+fn zip_ods_pkg(manifest: &[u8], content: &[u8], variant: u64, pkg: u64) -> Vec<u8> {
+    use zip::write::SimpleFileOptions;
+    use zip::CompressionMethod;
+    let mut z = zip::ZipWriter::new(Cursor::new(Vec::new()));
+    let st = SimpleFileOptions::default().compression_method(CompressionMethod::Stored);
+    let de = SimpleFileOptions::default().compression_method(if variant & 1 == 1 { CompressionMethod::Stored } else { CompressionMethod::Deflated });
+    z.start_file("mimetype", st).unwrap();
+    z.write_all(odsw::MIMETYPE.as_bytes()).unwrap();
+    let noise = Rng::new(variant ^ pkg ^ content.len() as u64).bytes(200);
+    let mut parts: Vec<(&str, &[u8])> = vec![("META-INF/manifest.xml", manifest)];
+    match pkg {
+        1 => parts.push(("encrypted-package", content)),
+        2 => {
+            parts.push(("encrypted-package", &noise));
+            parts.push(("content.xml", content));
+        }
+        3 | 4 => {
+            parts.push(("styles.xml", &noise));
+            if pkg == 3 {
+                parts.push(("content.xml", content));
+            }
+            parts.push(("meta.xml", &noise));
+            parts.push(("settings.xml", &noise));
+            parts.push(("Thumbnails/thumbnail.png", &noise));
+        }
+        _ => parts.push(("content.xml", content)),
+    }
+    if variant & 2 == 2 {
+        parts.reverse(); // the manifest last
+    }
+    for (n, b) in parts {
+        z.start_file(n, de).unwrap();
+        z.write_all(b).unwrap();
+    }
+    z.finish().unwrap().into_inner()
+}
+
+#[allow(dead_code)]
 fn zip_ods(manifest: &[u8], content: &[u8], variant: u64) -> Vec<u8> {
     use zip::write::SimpleFileOptions;
     use zip::CompressionMethod;
@@ -1288,7 +1333,8 @@ fn run_ods(text: &str, drv: &mut Driver, extras: bool) -> Outcome {
     let variant: u64 = f[6].trim_start_matches("zip=").parse().expect("zip");
     let cipher = f[7] == "enc=1";
     let seed = verif_harness::fnv64(text.as_bytes());
-    let hex_names = f.get(8) == Some(&"names=hex");
+    let hex_names = f.iter().skip(8).any(|x| *x == "names=hex");
+    let pkg: u64 = f.iter().skip(8).find_map(|x| x.strip_prefix("pkg=")).and_then(|x| x.parse().ok()).unwrap_or(0);
     let mut xml = manifest_xml(prolog, &root, gap, &entries, seed, hex_names);
     let declares = entries.iter().any(|e| e.iter().any(|c| matches!(c, Child::Enc(_)) || *c == Child::Elem(ENC_DATA.into())));
     let nenc = entries.iter().filter(|e| e.iter().any(|c| matches!(c, Child::Enc(_)))).count();
@@ -1320,8 +1366,9 @@ fn run_ods(text: &str, drv: &mut Driver, extras: bool) -> Outcome {
     } else {
         odsw::OdsBook::new(vec![odsw::OdsSheet::new("S", vec![odsw::RowRun::new(vec![odsw::OdsCell::float(1.5)])])]).content_xml().into_bytes()
     };
-    let bytes = zip_ods(xml.as_bytes(), &content, variant);
+    let bytes = zip_ods_pkg(xml.as_bytes(), &content, variant, pkg);
     let it = open_ods(&bytes);
+    out.count(format!("ods:package-shape={}", ["content.xml", "encrypted-package-only", "encrypted-package+content.xml", "all-parts", "all-parts-without-content.xml"][pkg.min(4) as usize]));
     if entries.len() >= 500 {
         let where_ = match first_enc {
             None => "none",
@@ -1399,7 +1446,9 @@ fn gen_ods(rng: &mut Rng, thorough: bool) -> String {
     }
     let root = if rng.chance(1, 10) { *rng.pick(&["manifest", "m:manifest", "manifest:file-entry", "manifest:encryption-data"]) } else { "manifest:manifest" };
     let cut = if rng.chance(1, 8) { format!("{}", rng.below(900)) } else { "-".into() };
-    format!("ods;{};{};{};{};cut={};zip={};enc={}", rng.below(4), hexs(root), rng.below(3), entries_text(&entries), cut, rng.below(4), (encrypted && rng.chance(2, 3)) as u8)
+    // package shape: whole-package encryption (no content.xml) for encrypted manifests in one case out of three
+    let pkg = if encrypted && rng.chance(1, 3) { *rng.pick(&[1u64, 1, 2, 4]) } else if rng.chance(1, 4) { 3 } else { 0 };
+    format!("ods;{};{};{};{};cut={};zip={};enc={};pkg={}", rng.below(4), hexs(root), rng.below(3), entries_text(&entries), cut, rng.below(4), (encrypted && rng.chance(2, 3)) as u8, pkg)
 }
 
 /// a manifest of 600 – 3000 entries with poorly compressible names (a package with many pictures), stored or
@@ -1733,6 +1782,12 @@ fn corpus() -> Vec<String> {
         // stream, listed after / before the top-level stream in the directory
         format!("xls;{PLAIN};b7;47:00001234abcd;_;scr=0;name=Workbook;sheetfp=0;emb=1"),
         format!("xls;{PLAIN};b7;47:00001234abcd;_;scr=0;name=Workbook;sheetfp=0;emb=2"),
+        // seeded change C20-m17: an ods encrypted as a whole package (ODF 1.3): mimetype, a manifest with one encrypted
+        // file-entry, `encrypted-package`, NO content.xml — manifest first and last in the zip; and with content.xml
+        format!("ods;1;{};0;-|E6d616e69666573743a616c676f726974686d+6d616e69666573743a6b65792d64657269766174696f6e;cut=-;zip=0;enc=1;pkg=1", hexs("manifest:manifest")),
+        format!("ods;1;{};0;E;cut=-;zip=3;enc=1;pkg=1", hexs("manifest:manifest")),
+        format!("ods;1;{};0;-|E;cut=-;zip=0;enc=1;pkg=2", hexs("manifest:manifest")),
+        format!("ods;1;{};0;-|-|E|-;cut=-;zip=1;enc=1;pkg=4", hexs("manifest:manifest")),
         // compound files that are not encrypted packages
         format!("ooxml;{PLAIN};{}:r100.1/{info}:r248.2", hexs("encryptedpackage")),
         format!("ooxml;{PLAIN};_"),
@@ -1775,7 +1830,7 @@ fn main() {
          FILEPASS record (wEncryptionType 0 / 1 RC4 / 1 CryptoAPI / other / truncated; every workbook also opened through Xls::new_with_options with forced code pages 1252/1200/932/unknown and header rows: same verdict) first after BOF, after other globals records, \
          or last before EOF, stream named Workbook or Book, rest of the stream optionally replaced by noise, a FILEPASS-typed record inside a sheet substream as a negative, protection records that are not encryption (Protect+Password, WinProtect, FileSharing, Prot4Rev, ObjProtect, ScenProtect; workbookProtection/sheetProtection in xlsx, table protection in ods, an encrypted package embedded as an OLE object in a plain xlsx), an embedded Excel object with its own plain Workbook stream next to the encrypted top-level one, plus globals streams laid out by the Lean encoder; \
          ods packages whose manifest (0..40 entries, encryption-data in any subset of them, other children, comments, white space, \
-         unusual root names, optionally truncated; one case in 500 with 600-3000 entries of random names, stored or deflated, the encrypted entry first/middle/last) is serialized from a logical description; conversely random unencrypted workbooks \
+         unusual root names, optionally truncated; one case in 500 with 600-3000 entries of random names, stored or deflated, the encrypted entry first/middle/last) is serialized from a logical description; package shapes: content.xml as cipher text, whole-package encryption (`encrypted-package`, no content.xml), both, all the usual parts with and without content.xml; conversely random unencrypted workbooks \
          of the four formats from the shared writers and every fixture of /repo/tests. every file is opened through readers handed over at offset 0, 4, 8, mid-file and EOF (all four readers and open_workbook_auto_from_rs): the result class must not depend on it. impl = the reader's constructor result class, \
          model = Lean decision logic on the same bytes/records/events, oracle = the description's own encrypted flag. \
          Outside the generator: manifests with a namespace prefix other than `manifest:`, compound files with storages as a tree. \
